@@ -755,11 +755,18 @@ func (p probes) cfgLine(newState bool) string {
 // caseDeadline bounds one scenario (a hang of the code under test is a finding, not a harness stall).
 const caseDeadline = 20 * time.Minute
 
+// modelDeadline bounds one model run on the Lean driver (the longest, the 8195-block window case, takes
+// about 20 s idle); a driver that stops answering is a harness failure, not a stall.
+var modelDeadline = 10 * time.Minute
+
 func main() {
 	if pf := os.Getenv("C04_PROF"); pf != "" { // developer aid: CPU profile
 		if fh, err := os.Create(pf); err == nil {
 			_ = pprof.StartCPUProfile(fh)
 		}
+	}
+	if v, err := time.ParseDuration(os.Getenv("C04_MODEL_DEADLINE")); err == nil && v > 0 { // self-test aid
+		modelDeadline = v
 	}
 	f := lib.ParseFlags()
 	res := lib.NewResult("a case = one scenario on one state backend: node A stores a chain, then 1-2 rounds of (revert k blocks, follow a fork); " +
@@ -902,8 +909,17 @@ func main() {
 					p.dropReopenedWindow = r.Hits["reopened-window-dropped"] > 0
 				}
 				d := <-drivers
-				n, ans, err := r.Trace.runModel(d, p.cfgLine(cs.NewState), res, cs)
-				if err != nil {
+				var n int
+				var ans map[string]string
+				var err error
+				if !lib.WithDeadline(modelDeadline, func() { n, ans, err = r.Trace.runModel(d, p.cfgLine(cs.NewState), res, cs) }) {
+					// the driver neither answers nor closes its pipes: abandon it (Close would wait for it)
+					res.Fatalf("Lean driver did not answer within %s in case %+v", modelDeadline, cs)
+					n, ans = 0, map[string]string{}
+					if nd, err2 := lib.StartDriver(f.Driver); err2 == nil {
+						d = nd
+					}
+				} else if err != nil {
 					// a dead driver is not reused: start a fresh one for the other cases
 					res.Fatalf("Lean driver failed in case %+v: %v", cs, err)
 					d.Close()
